@@ -67,6 +67,8 @@ def model_gram(cases, tag):
 
 def check(ctx):
     rng = np.random.default_rng(ctx.seed)
+    from bigcell import check_bigcells
+    check_bigcells(ctx, "C03", np.random.default_rng(ctx.seed + 2002))   # supercells of 36-216 atoms
     from o1 import check_o1
     check_o1(ctx, "C03", np.random.default_rng(ctx.seed + 1001))   # the exported first-order basis
     ctx.rule = ("Gram correspondence: G-tables with N<=4 (orders 2,3; order 4 N<=3), no cutoff and random T-invariant cutoff relation, every n_batch dividing pattern 1..N, fast and stable variants; "
